@@ -1,0 +1,12 @@
+// +build verif
+
+package capnp
+
+import "sync/atomic"
+
+// VerifReadLimit returns the remaining traversal budget of the message
+// (verification hook; only built with the "verif" tag).
+func (m *Message) VerifReadLimit() uint64 {
+	m.rlimitInit.Do(m.initReadLimit)
+	return atomic.LoadUint64(&m.rlimit)
+}
